@@ -19,6 +19,7 @@ func C02(c *Ctx) {
 	c.Assume("position convention: col counts runes since the last newline, a newline itself sits at (line+1, col 0); EOF is one column past the last rune")
 	p := pegProfile()
 	p.PLabel = 70
+	p.LabelPool = 3
 	p.W[gast.Action] = 16
 	p.W[gast.AndCode] = 6
 	p.W[gast.NotCode] = 5
@@ -47,6 +48,10 @@ func c02Strata() []*gast.Grammar {
 		// predicate after an action: must see the current position and empty text
 		mk(r("S", gast.S(gast.Ref("A"), gast.L("b"), gast.AndC(2, mon.Spec{}), gast.Star(gast.Dot()))),
 			r("A", gast.A(gast.Plus(gast.L("a")), 1, mon.Spec{}))),
+		// the same label name nested directly inside a labelled expression (no scope opener between)
+		mk(r("S", gast.A(gast.S(gast.Lab("a", gast.Ref("W")), gast.L(":"), gast.Lab("b", gast.A(gast.S(gast.L("<"), gast.Lab("a", gast.Ref("W")), gast.L(">")), 2, mon.Spec{})),
+			gast.Lab("d", gast.Lab("a", gast.Opt(gast.L("!"))))), 1, mon.Spec{})),
+			r("W", gast.A(gast.Plus(gast.Cl(gast.Chars("ab"))), 3, mon.Spec{R: 2}))),
 		// recursion re-uses label names
 		mk(r("S", gast.A(gast.S(gast.Lab("a", gast.L("(")), gast.Lab("b", gast.Opt(gast.Ref("S"))), gast.Lab("d", gast.L(")"))), 1, mon.Spec{}))),
 		// action inside an alternative that is abandoned later
@@ -243,15 +248,15 @@ func C14(c *Ctx) {
 		"distinct_nontrivial = distinct (grammar, input) in which >=1 throw was evaluated while >=1 handler for its label was in force")
 	c.Assume("recovery expressions only throw labels strictly greater than the ones they handle (no unbounded handler recursion); grammars pigeon rejects as left-recursive because of its static treatment of throw/recover are skipped and counted")
 	p := pegProfile()
-	p.ThrowLabels = []string{"L1", "L2", "L3"}
-	p.W[gast.Throw] = 12
-	p.W[gast.Recovery] = 12
+	p.ThrowLabels = []string{"L1", "L2", "L3", "L4"}
+	p.W[gast.Throw] = 14
+	p.W[gast.Recovery] = 16
 	p.W[gast.Action] = 12
 	p.W[gast.AndCode] = 3
 	p.W[gast.NotCode] = 3
 	p.PUClass = 0
 	cfg := &MCConfig{
-		Profile: p, Grammars: c14Strata(), NGrammars: c.N(130, 1500),
+		Profile: p, Grammars: c14Strata(), NGrammars: c.N(300, 2500),
 		FlagSets:  [][]string{{}, {"-optimize-parser"}},
 		InputsPer: c.N(90, 200), ExhaustLimit: c.N(200, 800), ExhaustLen: 6,
 		Compare:   CmpVal | CmpEnd | CmpTrace | CmpOK,
@@ -276,6 +281,18 @@ func c14Strata() []*gast.Grammar {
 			r("T", gast.C(gast.L("b"), gast.Thr("L1")))),
 		// handler popped on exit: the throw after the operator fails like a mismatch
 		mk(r("S", gast.C(gast.S(gast.Rec(gast.L("a"), act(gast.Dot(), 1), "L1"), gast.Thr("L1")), act(gast.Star(gast.Dot()), 2)))),
+		// skip-and-continue idiom: throws inside a repetition, recovery expression with an operator of its own
+		mk(r("S", gast.S(gast.Ref("List"), gast.NotE(gast.Dot()))),
+			r("List", gast.Rec(act(gast.Star(gast.Ref("Item")), 1), gast.Ref("Skip"), "L1")),
+			r("Item", gast.C(act(gast.Cl(gast.Chars("ab")), 2), gast.Thr("L1"))),
+			r("Skip", gast.Rec(gast.Ref("Digits"), act(gast.Dot(), 3), "L2")),
+			r("Digits", gast.C(act(gast.Plus(gast.Cl(gast.Chars("01"))), 4), gast.Thr("L2")))),
+		// the recovery expression of an outer operator throws a label handled by an inner operator
+		// whose guarded expression is still being evaluated
+		mk(r("S", gast.Rec(gast.Ref("Inner"), gast.Ref("RecOuter"), "L1")),
+			r("Inner", gast.Rec(gast.Ref("Body"), act(gast.Star(gast.Dot()), 1), "L2")),
+			r("Body", gast.C(act(gast.Plus(gast.Cl(gast.Chars("ab"))), 2), act(gast.Lab("v", gast.Thr("L1")), 3))),
+			r("RecOuter", act(gast.S(gast.L("!"), gast.Lab("v", gast.Thr("L2"))), 4))),
 		// throw inside repetition and predicate
 		mk(r("S", gast.Rec(gast.S(gast.Star(gast.C(gast.L("a"), gast.S(gast.AndE(gast.L("b")), gast.Thr("L2")))), gast.NotE(gast.Thr("L1")), gast.Star(gast.Dot())), act(gast.L("b"), 1), "L1", "L2"))),
 	}
